@@ -45,4 +45,14 @@ PROPS = {
              "oracle: canon(compile(x)) == canon(compile(Format(Parse(x)))) as unordered object/edge maps, boards recursively, plus configuration; "
              "imported files untouched. non-trivial = formatting changed the text and (>=3 objects or a board or a glob).",
     ),
+    "C16": dict(
+        engine="p_compile", quick_checks=40000, thorough_checks=600000, quick_shards=14, thorough_shards=16,
+        rule="for each of ~35 attribute keywords x context (object, connection, arrowhead, d2-config): an enumerated core of boundary and variant "
+             "values (numeric edges -1/0/1/max/max+1/huge/NaN/Inf/-0/non-ASCII digits, case variants, colour syntax variants, enum members in any "
+             "case) written quoted and bare, then rapid values (probes, integers -20..120, decimals, rune strings). Each value is classified by a "
+             "three-valued table written from the statement and the error texts: valid (must compile and reach the graph unchanged / case-folded), "
+             "invalid (must be rejected with an error on the value's line), gray (lexical variants the documentation is silent about: counted, not "
+             "asserted). non-trivial = every classified case; distinct by (attribute, context, value, quoting).",
+        assumptions=["'error at the value' is checked as: some reported error starts on the line of the value"],
+    ),
 }
